@@ -97,7 +97,7 @@ def scalar_cells(quick):
 
 
 SHAPE_KINDS = ["expand_lead", "expand_one", "unsq0", "unsq_last", "unsq_mid", "sq0", "sq_last", "sum0", "sum_last", "perm_rev", "perm_id",
-               "tr_batch", "mT", "rep_lead", "rep_b", "adiag0", "adiag1", "adiagn", "adiagbn", "adiagb1", "adiag_last_n", "jitter"]
+               "perm_cyc1", "perm_cyc2", "tr_batch", "mT", "rep_lead", "rep_b", "adiag0", "adiag1", "adiagn", "adiagbn", "adiagb1", "adiag_last_n", "jitter"]
 
 
 def shape_cells(quick):
@@ -108,7 +108,9 @@ def shape_cells(quick):
             if k in ("unsq_mid", "sq0", "sq_last", "sum0", "sum_last", "perm_id", "adiagbn", "adiagb1", "adiag_last_n", "expand_one"):
                 cand = [b for b in cand if b]
             if k in ("perm_rev", "tr_batch"):
-                cand = [b for b in cand if len(b) >= 2]
+                cand = [b for b in cand if len(b) >= 2] + [[2, 3, 4]]
+            if k in ("perm_cyc1", "perm_cyc2"):          # permutations that are not their own inverse: 3 batch dims, unequal sizes
+                cand = [[2, 3, 4]]
             if k in ("sq0",):
                 cand = [[1], [1, 3]]
             if k in ("sq_last",):
@@ -238,6 +240,10 @@ def gen_shape(rng, cell):
         return {"p": "permute", "a": a, "dims": list(range(nb))[::-1]}
     if k == "perm_id":
         return {"p": "permute", "a": a, "dims": list(range(nb))}
+    if k == "perm_cyc1":
+        return {"p": "permute", "a": a, "dims": [1, 2, 0]}
+    if k == "perm_cyc2":
+        return {"p": "permute", "a": a, "dims": [2, 0, 1]}
     if k == "tr_batch":
         return {"p": "transpose", "a": a, "d1": 0, "d2": nb - 1}
     if k == "mT":
@@ -261,6 +267,126 @@ def gen_shape(rng, cell):
     if k == "jitter":
         return {"p": "add_jitter", "a": a, "v": rng.choice([1, 2])}
     raise ValueError(k)
+
+
+COMP_COUNTER = ["Diag", "ConstantDiag", "Identity", "KronDiag", "Dense", "Kron", "Triangular", "Sum", "AddedDiag", "Root", "Toeplitz",
+                "BlockDiag"]
+COMP_COMBOS = [(op, order) for op in ("mul", "add", "matmul", "sub") for order in (0, 1)]      # order 1: counterpart on the LEFT
+COMP_BATCH_PAIRS = [([], []), ([2], [2]), ([2], []), ([], [2])]
+COMP_SHAPE_KINDS = ["mT", "jitter", "adiagn", "expand_lead", "unsq0", "unsq_last", "sum0", "sum_last", "perm_cyc1", "perm_cyc2", "tr_batch",
+                    "mul_py", "mul_pyneg", "add_dense", "rsub_dense", "matmul_dense", "rmatmul_diag", "mul_diag_left"]
+
+
+def comp_cells(quick):
+    """operands that are themselves lazy results (products of triangulars in all orientation pairs, sums / Kronecker products /
+    constant multiples of such products, add_jitter results, roots over operators) on BOTH sides of every binary operation
+    against structured counterparts, and under the unary rewrites; concatenations along a batch dimension under every
+    batch rewrite"""
+    out = []
+    for ni, name in enumerate(g.COMPOSITES):
+        for ki, k in enumerate(COMP_COUNTER):
+            if quick:
+                picks = {COMP_COMBOS[(ni * 3 + ki) % 8], COMP_COMBOS[(ni * 5 + ki * 3 + 4) % 8]}
+                if k in DIAG_FAMILY:
+                    picks |= {("mul", 1), ("matmul", 1)}     # the rewrites that read the composite's _diagonal / rows
+                bps = [(ni + ki) % len(COMP_BATCH_PAIRS)]
+            else:
+                picks = set(COMP_COMBOS)
+                bps = range(len(COMP_BATCH_PAIRS))
+            for (op, order) in sorted(picks):
+                for bp in bps:
+                    out.append(("comp", op, name, k, order, bp))
+        for si, sk in enumerate(COMP_SHAPE_KINDS):
+            need3 = sk in ("perm_cyc1", "perm_cyc2")
+            cand = [[2, 3, 4]] if need3 else ([[2, 3]] if sk == "tr_batch" else [[], [2], [2, 3]])
+            if sk in ("sum0", "sum_last"):
+                cand = [[2], [2, 3]]
+            bs = [cand[(ni + si) % len(cand)]] if quick else cand
+            for b in bs:
+                out.append(("compshape", sk, name, tuple(b)))
+    for ni, name in enumerate(g.CATB):
+        for sk in ("perm_cyc1", "perm_cyc2", "perm_rev", "tr01", "tr02", "tr12", "unsq0", "unsq_mid", "unsq_last", "expand_lead",
+                   "sum0", "sum1", "sum_last", "mT", "mul_py", "add_dense", "jitter"):
+            out.append(("catb", sk, name))
+    return out
+
+
+def _unary_on(a, sk, rng, b):
+    """the unary / one-sided steps shared by the composite and batch-cat families"""
+    nb = len(b)
+    if sk == "mT":
+        return {"p": "transpose", "a": a, "d1": -1, "d2": -2}
+    if sk == "jitter":
+        return {"p": "add_jitter", "a": a, "v": rng.choice([1, 2])}
+    if sk == "adiagn":
+        return {"p": "add_diagonal", "a": a, "t": ob.rand_t(rng, [N], 1, 3)}
+    if sk == "expand_lead":
+        return {"p": "expand", "a": a, "batch": [2] + b}
+    if sk == "unsq0":
+        return {"p": "unsqueeze", "a": a, "dim": 0}
+    if sk == "unsq_mid":
+        return {"p": "unsqueeze", "a": a, "dim": 1}
+    if sk == "unsq_last":
+        return {"p": "unsqueeze", "a": a, "dim": -3}
+    if sk == "sum0":
+        return {"p": "sum", "a": a, "dim": 0}
+    if sk == "sum1":
+        return {"p": "sum", "a": a, "dim": 1}
+    if sk == "sum_last":
+        return {"p": "sum", "a": a, "dim": -3}
+    if sk == "perm_cyc1":
+        return {"p": "permute", "a": a, "dims": [1, 2, 0]}
+    if sk == "perm_cyc2":
+        return {"p": "permute", "a": a, "dims": [2, 0, 1]}
+    if sk == "perm_rev":
+        return {"p": "permute", "a": a, "dims": list(range(nb))[::-1]}
+    if sk == "tr_batch":
+        return {"p": "transpose", "a": a, "d1": 0, "d2": nb - 1}
+    if sk in ("tr01", "tr02", "tr12"):
+        return {"p": "transpose", "a": a, "d1": int(sk[2]), "d2": int(sk[3])}
+    if sk == "mul_py":
+        return {"p": "mul", "a": a, "b": {"p": "py", "v": rng.choice([4, 9])}}
+    if sk == "mul_pyneg":
+        return {"p": "mul", "a": a, "b": {"p": "py", "v": rng.choice([-1, -2])}}
+    if sk == "add_dense":
+        return {"p": "add", "a": a, "b": leaf(g.inst(rng, "Dense", b, N))}
+    if sk == "rsub_dense":
+        return {"p": "sub", "a": leaf(g.inst(rng, "Dense", b, N)), "b": a}
+    if sk == "matmul_dense":
+        return {"p": "matmul", "a": a, "b": leaf(g.inst(rng, "Dense", b, N))}
+    if sk == "rmatmul_diag":
+        return {"p": "matmul", "a": leaf(g.inst(rng, "Diag", b, N)), "b": a}
+    if sk == "mul_diag_left":
+        return {"p": "mul", "a": leaf(g.inst(rng, "ConstantDiag", b, N)), "b": a}
+    raise ValueError(sk)
+
+
+def gen_comp(rng, cell):
+    if cell[0] == "compshape":
+        _, sk, name, b = cell
+        e, _ = g.composite(rng, name, list(b), N)
+        return _unary_on(leaf(e), sk, rng, list(b))
+    if cell[0] == "catb":
+        _, sk, name = cell
+        e = g.catb(rng, name, N)
+        return _unary_on(leaf(e), sk, rng, list(ob.shape_of(e)[:-2]))
+    _, op, name, k, order, bp = cell
+    bc, bk = COMP_BATCH_PAIRS[bp]
+    e, psd = g.composite(rng, name, bc, N)
+    left_cls = k if order else name
+    need_psd = False
+    if op == "mul":
+        exact = (order == 1 and k in DIAG_FAMILY) or k == "Dense"
+        need_psd = not exact
+    if op == "add" and order == 0 and k in ROOT_FAMILY:
+        need_psd = True
+    if op == "add" and order == 1 and False:
+        need_psd = False
+    if need_psd and (not psd or (op == "mul" and k not in g.PSD_OK)):
+        raise OutOfDomain()
+    ek = g.inst(rng, k, bk, N, psd=need_psd and op == "mul")
+    a, b = (leaf(ek), leaf(e)) if order else (leaf(e), leaf(ek))
+    return {"p": op, "a": a, "b": b}
 
 
 ROOT_KINDS = ["alr1", "alr2", "cat_rows", "prod0", "prod_last"]
@@ -308,7 +434,10 @@ def gen_prog(rng, idx, depth):
     """random program: a left-leaning chain of `depth` steps over leaves drawn from PROG_LEAVES (deterministic structure
     from idx, values from rng)"""
     b = list(BATCHES[idx % 3])
-    cur = leaf(g.inst(rng, PROG_LEAVES[idx % len(PROG_LEAVES)], b, N))
+    if idx % 5 == 4:           # a lazy result as the first operand
+        cur = leaf(g.composite(rng, g.COMPOSITES[(idx // 5) % len(g.COMPOSITES)], b, N)[0])
+    else:
+        cur = leaf(g.inst(rng, PROG_LEAVES[idx % len(PROG_LEAVES)], b, N))
     cb = list(b)
     for s in range(depth):
         st = PROG_STEPS[(idx * 5 + s * 7 + idx // len(PROG_STEPS)) % len(PROG_STEPS)]
@@ -318,7 +447,10 @@ def gen_prog(rng, idx, depth):
             if st == "add" and c2 in ROOT_FAMILY:
                 c2 = "Dense"
             b2 = rng.choice([cb, cb, []])
-            other = leaf(g.inst(rng, c2, b2, N))
+            if (idx + s) % 4 == 3:      # a lazy result as the other operand
+                other = leaf(g.composite(rng, g.COMPOSITES[(idx + 3 * s) % len(g.COMPOSITES)], b2, N)[0])
+            else:
+                other = leaf(g.inst(rng, c2, b2, N))
             cur = {"p": st, "a": cur, "b": other} if rng.random() < 0.7 else {"p": st, "a": other, "b": cur}
         elif st == "mul_c":
             cur = {"p": "mul", "a": cur, "b": {"p": "py", "v": rng.choice([4, 9, -1, -2])}}
@@ -358,7 +490,7 @@ def gen_prog(rng, idx, depth):
 
 
 def all_cells(quick):
-    cells = pair_cells(quick) + scalar_cells(quick) + shape_cells(quick) + root_cells(quick)
+    cells = pair_cells(quick) + scalar_cells(quick) + shape_cells(quick) + root_cells(quick) + comp_cells(quick)
     nprog = 240 if quick else 1500
     for i in range(nprog):
         cells.append(("prog", i, 2 + i % 3 if quick else 2 + i % 5))
@@ -374,6 +506,8 @@ def gen_cell(rng, cell):
         return gen_shape(rng, cell)
     if cell[0] == "root":
         return gen_root(rng, cell)
+    if cell[0] in ("comp", "compshape", "catb"):
+        return gen_comp(rng, cell)
     return gen_prog(rng, cell[1], cell[2])
 
 
@@ -490,6 +624,70 @@ def cause_of(k):
         return "zero-add-diagonal-multibatch"
     if op in ("sum", "prod") and cul == "KroneckerProductDiag" and exc == "krondiag-components":
         return "krondiag-sum-batch"
+    return None
+
+
+DIAG_RT = ("Diag", "ConstantDiag", "Identity", "KroneckerProductDiag")
+BATCHCONST_DEFECT_CLASSES = {"ConstantDiag", "Identity", "Triangular", "Chol", "LowRankRootAddedDiag", "Mul", "BlockDiag",
+                             "BlockInterleaved", "SumBatch", "KronAddedDiag", "AddedDiag"}
+
+
+def leaf_classes(P):
+    """opbuild class names occurring anywhere in the operands of the (sub-)program P"""
+    out = set()
+    for n in ops.nodes(P):
+        if n["p"] == "leaf":
+            out |= {x["cls"] for x in g.nodes(n["e"])}
+    return out
+
+
+def defect_cell(n, kinds):
+    """Is the step n one of the cells in which the PINNED library is known to be defective (known_findings.d/C02-*)?  Decided
+    from the structure of the step only (operation, operand classes / kinds, broadcasting), never from its outcome: on a tree
+    where such a defect has been repaired the implementation then agrees with torch and with Spec.v while Model.v, which
+    transcribes the defect, does not -- that disagreement is expected (DESIGN 2.5) and must not alarm."""
+    k = kinds.get(id(n)) or {}
+    op, a, b, bc, nb = n["p"], k.get("a"), k.get("b"), k.get("bcast"), k.get("nbatch") or 0
+    lc = leaf_classes(n)
+    if op == "sub" and b == "Zero":
+        return "zero-mul-python-scalar"
+    if op in ("mul", "div") and "Zero" in (a, b) and "float" in (a, b):
+        return "zero-mul-python-scalar"
+    if op in ("add", "sub") and "Zero" in (a, b) and bc:
+        return "zero-add-returns-other"
+    if op == "mul" and b == "Zero" and bc:
+        return "mul-zero-returns-other"
+    if op == "matmul" and a == "Zero" and bc:
+        return "zero-matmul-drops-batch"
+    if op == "matmul" and a == "Interpolated":
+        return "interpolated-matmul-operator"
+    if op == "matmul" and bc and ((a == "BlockDiag" and b in DIAG_RT) or (b == "BlockDiag" and a in DIAG_RT)):
+        return "diag-blockdiag-matmul-broadcast"
+    if op in ("add", "sub") and bc and str(a).startswith("KroneckerProduct") and a not in DIAG_RT and b in DIAG_RT:
+        return "kron-add-diag-broadcast"
+    if op == "mul" and ((a == "Identity" and b not in SCALARISH) or (b == "Identity" and a == "tensor-matrix")):
+        return "identity-mul-matrix"
+    if op == "mul" and "tensor-batch-of-constants" in (a, b) and (lc & BATCHCONST_DEFECT_CLASSES):
+        return "mul-batch-constants"
+    if op in ("permute", "transpose") and "Zero" in lc:
+        return "zero-permute-noop"
+    if op in ("repeat", "expand") and a == "Zero":
+        return "zero-repeat"
+    if op in ("add_diagonal", "add_jitter") and a == "Zero" and nb >= 2:
+        return "zero-add-diagonal-multibatch"
+    if op in ("sum", "prod") and "KronDiag" in lc:
+        return "krondiag-sum-batch"
+    return None
+
+
+def in_defect_cell(n, kinds):
+    """the step itself, or a step below it in the same program, is a known-defect cell"""
+    for m in ops.nodes(n):
+        if m["p"] in ("leaf", "t", "py"):
+            continue
+        d = defect_cell(m, kinds)
+        if d:
+            return d
     return None
 
 
@@ -660,6 +858,15 @@ def coq_stage(ctx, results, stats):
                     continue
             bad_model = mc in (1, 2, 3, 5)
             bad_spec = sc in (1, 2, 3)
+            if bad_model and not bad_spec:
+                dc = in_defect_cell(n, r["j"].get("kinds", {}))
+                if dc:
+                    # a known-defect cell that THIS tree has repaired: the implementation agrees with torch and with Spec.v,
+                    # Model.v still transcribes the pinned defect (DESIGN 2.5: the spec output is accepted as well)
+                    stats["repaired_cells"] += 1
+                    stats.setdefault("repaired_causes", {})
+                    stats["repaired_causes"][dc] = stats["repaired_causes"].get(dc, 0) + 1
+                    continue
             if bad_model or bad_spec:
                 stats["model_mismatches" if bad_model else "spec_mismatches"] += 1
                 sig = (n["p"], ops.describe(n)[:60], mc, sc)
@@ -713,7 +920,7 @@ def run(ctx):
     n_kf = replay_known(ctx)
     results, skipped = observe_all(ctx, rng, cells)
     stats = {"predicate_failures": 0, "model_mismatches": 0, "spec_mismatches": 0, "coq_nodes": 0, "coq_nodes_modelled": 0,
-             "noninteger_nodes": 0, "inexpressible_nodes": 0, "defects_transcribed": 0}
+             "noninteger_nodes": 0, "inexpressible_nodes": 0, "defects_transcribed": 0, "repaired_cells": 0}
     report_failures(ctx, results, stats)
     t1 = time.time()
     if ok:
@@ -755,6 +962,7 @@ def run(ctx):
         "noninteger_nodes": stats["noninteger_nodes"], "inexpressible_nodes": stats["inexpressible_nodes"],
         "model_mismatches": stats["model_mismatches"], "spec_mismatches": stats["spec_mismatches"],
         "predicate_failures": stats["predicate_failures"], "defects_transcribed_by_model": stats["defects_transcribed"],
+        "repaired_known_defect_cells": stats["repaired_cells"], "repaired_causes": stats.get("repaired_causes", {}),
         "known_finding_witnesses_still_failing": n_kf, "classes": len(CLASSES),
         "samples": samples, "wall_python_s": round(t1 - t0, 1), "wall_coq_s": round(time.time() - t1, 1),
     })
